@@ -1,6 +1,7 @@
 package props
 
 import (
+	"encoding/json"
 	"fmt"
 
 	"verif/core"
@@ -238,5 +239,29 @@ func (C09) growth(tp *tape.Tape) core.Result {
 	r.Interleaving = uint64(trace)
 	r.TraceHash = uint64(trace)
 	r.Sample = h
+	return r
+}
+
+// RunScript replays a hand-written history under the conservation invariant.
+func (C09) RunScript(raw json.RawMessage) core.Result {
+	var r core.Result
+	sc, h, err := parseScript(raw)
+	if err != nil {
+		r.Discard = err.Error()
+		return r
+	}
+	s := sess.New()
+	for i, src := range sc.Steps {
+		for _, o := range s.Submit(src+"\n", sc.Flavour == "repl") {
+			if o.Kind == sess.KPanic {
+				r.Violation = panicViolation("panic", o, h)
+				return r
+			}
+			if o.Kind != sess.KParse && !o.After.AtRest(0) {
+				r.Violation = &core.Violation{Clause: "at-rest-after-" + o.Kind, Detail: fmt.Sprintf("after step %d (%s): %s", i+1, o.Brief(), o.After), History: h}
+				return r
+			}
+		}
+	}
 	return r
 }
